@@ -1,9 +1,9 @@
 package harness
 
 import (
-	"k8s.io/apimachinery/pkg/api/resource"
 	"context"
 	"fmt"
+	"k8s.io/apimachinery/pkg/api/resource"
 	"math"
 	"sort"
 	"testing"
@@ -14,6 +14,7 @@ import (
 
 	v1 "sigs.k8s.io/karpenter/pkg/apis/v1"
 	"sigs.k8s.io/karpenter/pkg/cloudprovider"
+	pscheduling "sigs.k8s.io/karpenter/pkg/controllers/provisioning/scheduling"
 	"sigs.k8s.io/karpenter/pkg/operator/options"
 	"sigs.k8s.io/karpenter/pkg/scheduling"
 
@@ -444,3 +445,135 @@ var propC19a = ev.Prop[gen.SchedWorld]{
 }
 
 func TestC19a(t *testing.T) { ev.Run(t, propC19a) }
+
+// ---- C19c: truncation inside the provisioning pass -------------------------------------------------------------------
+//
+// Provisioner.Schedule = NewScheduler + Solve + Results.TruncateInstanceTypes.  The same pipeline is run step by step so
+// that the scheduler's options BEFORE truncation are visible; the truncated launch list must be the cheapest of them,
+// ranked by each type's cheapest available offering that the NodeClaim's own (narrowed) requirements admit.
+
+type c19cScenario struct {
+	World    *gen.SchedWorld `json:"world"`
+	MaxTypes int             `json:"maxTypes"`
+}
+
+func drawC19c(t *rapid.T) *c19cScenario {
+	k := gen.DefaultKnobs()
+	k.NoMinValues, k.NoLimits, k.InterPod = true, true, 0
+	k.MaxNodes = 1
+	k.FriendlyPools, k.EasyPods = true, true
+	k.MaxTypes = 9
+	w := gen.World(t, k)
+	w.Options.ReservedCapacity = false
+	return &c19cScenario{World: w, MaxTypes: rapid.SampledFrom([]int{1, 2, 2, 3, 4}).Draw(t, "maxInstanceTypes")}
+}
+
+func execC19c(s *c19cScenario, c *ev.Ctx) {
+	b := build(s.World, c)
+	w := b.W
+	var res pscheduling.Results
+	full := map[*pscheduling.NodeClaim][]string{}
+	var serr error
+	w.Quiet(func() {
+		pods, err := b.Provisioner.GetPendingPods(w.Ctx)
+		if err != nil || len(pods) == 0 {
+			serr = fmt.Errorf("no pods: %v", err)
+			return
+		}
+		opts := []pscheduling.Options{pscheduling.DisableReservedCapacityFallback, pscheduling.NumConcurrentReconciles(1), pscheduling.MinValuesPolicy(options.FromContext(w.Ctx).MinValuesPolicy)}
+		if options.FromContext(w.Ctx).PreferencePolicy == options.PreferencePolicyIgnore {
+			opts = append(opts, pscheduling.IgnorePreferences)
+		}
+		sch, err := b.Provisioner.NewScheduler(w.Ctx, pods, w.Cluster.DeepCopyNodes().Active(), nil, opts...)
+		if err != nil {
+			serr = err
+			return
+		}
+		res, err = sch.Solve(w.Ctx, pods)
+		if err != nil {
+			serr = err
+			return
+		}
+		for _, nc := range res.NewNodeClaims {
+			for _, it := range nc.InstanceTypeOptions {
+				full[nc] = append(full[nc], it.Name)
+			}
+		}
+		res = res.TruncateInstanceTypes(w.Ctx, s.MaxTypes)
+	})
+	if serr != nil {
+		c.Class("schedule_error")
+		return
+	}
+	truncated, narrowed := false, false
+	for _, nc := range res.NewNodeClaims {
+		before := full[nc]
+		var kept []string
+		for _, it := range nc.InstanceTypeOptions {
+			kept = append(kept, it.Name)
+		}
+		if len(before) <= s.MaxTypes {
+			if len(kept) != len(before) {
+				c.Violate("truncate:options-lost-below-bound", "NodeClaim (pool %s) had %d options (<= bound %d) and lists %d afterwards", nc.NodePoolName, len(before), s.MaxTypes, len(kept))
+			}
+			continue
+		}
+		truncated = true
+		if len(kept) != s.MaxTypes {
+			c.Violate("truncate:count", "NodeClaim (pool %s) had %d options, the bound is %d, it lists %d", nc.NodePoolName, len(before), s.MaxTypes, len(kept))
+		}
+		var zones, cts []string
+		for _, z := range gen.Zones {
+			if zr := nc.Requirements.Get(corev1.LabelTopologyZone); zr.Has(z) {
+				zones = append(zones, z)
+			}
+		}
+		for _, ct := range []string{"on-demand", "spot"} {
+			if cr := nc.Requirements.Get(v1.CapacityTypeLabelKey); cr.Has(ct) {
+				cts = append(cts, ct)
+			}
+		}
+		pool := b.Pools[nc.NodePoolName]
+		if pool != nil {
+			poolReqs := scheduling.NewNodeSelectorRequirementsWithMinValues(pool.Spec.Template.Spec.Requirements...)
+			for _, key := range []string{corev1.LabelTopologyZone, v1.CapacityTypeLabelKey} {
+				for _, v := range append(append([]string{}, gen.Zones...), "on-demand", "spot") {
+					if poolReqs.Get(key).Has(v) != nc.Requirements.Get(key).Has(v) {
+						narrowed = true
+					}
+				}
+			}
+		}
+		for _, d := range before {
+			if contains(kept, d) {
+				continue
+			}
+			ds, _ := b.itSpec(d)
+			for _, k := range kept {
+				if !contains(before, k) {
+					c.Violate("truncate:type-invented", "NodeClaim (pool %s) lists %s, which was not among the scheduler's options %v", nc.NodePoolName, k, before)
+					continue
+				}
+				ks, _ := b.itSpec(k)
+				if pk, pd := refMinPrice(ks, zones, cts), refMinPrice(ds, zones, cts); pk > pd {
+					c.Violate("truncate:dearer-kept:in-pass", "NodeClaim (pool %s, zones %v, capacity types %v) keeps %s (cheapest compatible available offering %v) but dropped the cheaper option %s (%v); options were %v, bound %d", nc.NodePoolName, zones, cts, k, pk, d, pd, before, s.MaxTypes)
+				}
+			}
+		}
+	}
+	c.ClassIf(truncated, "options_truncated")
+	c.ClassIf(truncated && narrowed, "claim_narrower_than_pool")
+	c.NTIf(truncated)
+	c.Sample(map[string]any{"types": len(s.World.Catalog), "bound": s.MaxTypes, "claims": len(res.NewNodeClaims), "truncated": truncated})
+}
+
+var propC19c = ev.Prop[c19cScenario]{
+	ID: "C19", Test: "TestC19c",
+	Rule: "a scheduler world (up to 9 instance types, 1-3 friendly pools without minValues, pods some of which pin a zone or capacity type) is run through the steps of Provisioner.Schedule (GetPendingPods, NewScheduler, Solve, Results.TruncateInstanceTypes with bound 1-4) so that the options before truncation are visible; " +
+		"oracle: a NodeClaim with no more options than the bound keeps them all; otherwise it lists exactly `bound` of its options and no kept type's cheapest available offering admitted by the NodeClaim's own zone / capacity-type requirements is dearer than a dropped option's; " +
+		"non-trivial = some NodeClaim was truncated",
+	Assumptions: []string{"no minValues (truncation may keep dearer types to honour them: judged by TestC13c / TestC19b)", "reservations disabled"},
+	Draw:        drawC19c, Exec: execC19c, ReplayTries: 5,
+}
+
+func TestC19c(t *testing.T) { ev.Run(t, propC19c) }
